@@ -9,7 +9,6 @@ import (
 	"context"
 	"fmt"
 	"math/big"
-	"net"
 	"os"
 	"path/filepath"
 	"time"
@@ -56,20 +55,9 @@ type Env struct {
 	IPC      string
 	HTTP     string
 	WS       string
-	HTTPPort int
 	// TempKeyDir is the scratch keystore directory created for an ephemeral node ("" otherwise)
 	TempKeyDir string
-	WSPort     int
 	cancel     context.CancelFunc
-}
-
-func freePort() int {
-	l, err := net.Listen("tcp4", "127.0.0.1:0")
-	if err != nil {
-		return 0
-	}
-	defer l.Close()
-	return l.Addr().(*net.TCPAddr).Port
 }
 
 // Addresses returns the two deterministic keystore accounts (unlocked, locked).
@@ -133,12 +121,11 @@ func Start(o Options) (*Env, error) {
 	if o.Transports {
 		conf.IPCPath = "c18.ipc"
 		conf.WSOrigins = []string{"*"}
-		env.HTTPPort, env.WSPort = freePort(), freePort()
-		env.HTTP = fmt.Sprintf("http://127.0.0.1:%d", env.HTTPPort)
-		env.WS = fmt.Sprintf("ws://127.0.0.1:%d", env.WSPort)
+		// port 0: the kernel picks a free port when the node binds; the address is read back after
+		// Start (RefreshEndpoints).  No port is ever chosen ahead of the bind.
 		if !o.OnlyIPC {
-			conf.HTTPHost, conf.HTTPPort = "127.0.0.1", env.HTTPPort
-			conf.WSHost, conf.WSPort = "127.0.0.1", env.WSPort
+			conf.HTTPHost, conf.HTTPPort = "127.0.0.1", 0
+			conf.WSHost, conf.WSPort = "127.0.0.1", 0
 		}
 	}
 	stack, err := node.New(conf)
@@ -232,6 +219,7 @@ func Start(o Options) (*Env, error) {
 		return nil, fmt.Errorf("service: %v", err)
 	}
 	env.Aqua = a
+	env.RefreshEndpoints()
 	if o.Transports && env.IPC != "" {
 		// wait for the socket
 		for i := 0; i < 100; i++ {
@@ -242,6 +230,18 @@ func Start(o Options) (*Env, error) {
 		}
 	}
 	return env, nil
+}
+
+// RefreshEndpoints reads the addresses the HTTP / WS listeners are really bound to.
+func (e *Env) RefreshEndpoints() {
+	addrs := e.Stack.VerifListenAddrs()
+	e.HTTP, e.WS = "", ""
+	if a := addrs["http"]; a != "" {
+		e.HTTP = "http://" + a
+	}
+	if a := addrs["ws"]; a != "" {
+		e.WS = "ws://" + a
+	}
 }
 
 // Stop terminates the node.
